@@ -58,7 +58,7 @@ BUILT["C56"] = ("E1", "exploration", "deterministic simulation: pair of real web
   "exact scenario: every result of 10..60 drawn operations (read with small or large buffers/write/flush/close/close_read/inject FIN|STOP_SENDING|RESET alone or with a payload) equals the reference state machine fed with the same message sequence; interleaved scenario: half-done operations, dropped streams (DropListener), spurious Pending: no panic, ConnectionReset is sticky, data read is a prefix of data written",
   "frames written atomically into the simulated channel", "5/C56")
 E2_NOTE = "stub stack: SimTransport hands (PeerId, SimMuxer) to the Swarm, so security/muxing are stubs here (real ones are covered by E1 checks); connection/listener ids come from the cfg(libp2p_verif) thread-local counters so that a run is a function of its seed"
-BUILT["C01"] = ("E2", "exploration", "deterministic simulation: 2-5 real Swarms over a simulated transport/executor/clock, seeded operation + fault sequences, reference model folded from returned events, history check at quiescence",
+BUILT["C01"] = ("E2", "exploration", "deterministic simulation: 2-5 real Swarms over a simulated transport/executor/clock, seeded operation + fault sequences (incl. identity faults of the stub handshake and muxer address changes), reference model folded from returned events, history check at quiescence",
   "Seeded search over workloads (dials with every PeerCondition, behaviour dials, closes, disconnects, resets, denials, refused/hanging/late dials, failing/hanging upgrades) and task interleavings; online: no double resolution, no ConnectionClosed without/after close, no establishment without a pending attempt; at the fault-free end: nothing unresolved, nothing left established, behaviour lifecycle sequence == SwarmEvent lifecycle sequence",
   E2_NOTE, "5/C01")
 BUILT["C02"] = ("E2", "exploration", "deterministic simulation: invariant after every returned SwarmEvent and every Swarm::dial call against a reference count model",
